@@ -31,6 +31,15 @@ CHECKS = {
                      "the oracle reads the arguments docker.run received, filelist.txt as the container sees it through the mounts, returned paths/contents, exceptions and leftover temp dirs; "
                      "multi-step sequences in one interpreter check that nothing leaks from one execution into the next.",
                 note="the stand-in docker client sees the host only through the requested mounts; the real docker daemon is not involved", ref="4/C17"),
+    "C07": dict(cat="exploration", technique="history-vs-pristine-process comparison of name-normalised packages + registry snapshot monitor at quiescent points; sys.monitoring failpoints in the thorough tier",
+                text="Random histories (successful/failing translations on reused and new executors declaring method types, enums, collections, functions, job scripts, inject code, extended metadata) "
+                     "are followed by sensitive probe queries; each probe's rendered package or error must equal what a pristine process produces. After every step the process-global registries are "
+                     "snapshotted so that a violation names the step that leaked.",
+                note="pristine = fork()ed child of an interpreter that only imported the package; probes are a fixed sensitive set (listed in evidence), histories are random", ref="4/C07"),
+    "C08": dict(cat="exploration", technique="metamorphic comparison of name-normalised rendered packages across meaning-preserving query variants; sample of renamed variants executed under the C01 oracle",
+                text="Every generated query is rewritten by variant generators (qastle round trip for queries qastle carries faithfully, capture-avoiding alpha-renaming with hostile names, "
+                     "MetaData re-attached at every point of the main chain, Select.Select/Where.Where fusion, method<->function style); all variants must be accepted/refused alike and render the same package.",
+                note="identifier renumbering applied identically to both sides; the query text quoted in the First() error message is masked", ref="4/C08"),
 }
 
 PENDING_REASON = "check not built yet at this commit (work in progress, see DESIGN.md section 4)"
